@@ -308,6 +308,8 @@ def check(src, rep):
         ("CRLF line ends", "1-0:1.8.0(1.5*kWh)\r\n1-0:2.8.0(2*kWh)\r\n", [("1-0:1.8.0", [("1.5", "kWh")]), ("1-0:2.8.0", [("2", "kWh")])]),
         ("blank lines", "\r\n1-0:1.8.0(1.5*kWh)\r\n\r\n1-0:2.8.0(2)\r\n", [("1-0:1.8.0", [("1.5", "kWh")]), ("1-0:2.8.0", [("2", None)])]),
         ("several data sets per line", "1-0:1.8.0(1.5*kWh)1-0:2.8.0(2*kWh)\r\n0-0:1.0.0(210101000000W)\r\n", [("1-0:1.8.0", [("1.5", "kWh")]), ("1-0:2.8.0", [("2", "kWh")]), ("0-0:1.0.0", [("210101000000W", None)])]),
+        ("the longest reduced address", "255-255:255.255.255*255(1.5*kWh)\r\n1-128:121.7.0*255(2*V)\r\n", [("255-255:255.255.255*255", [("1.5", "kWh")]), ("1-128:121.7.0*255", [("2", "V")])]),
+        ("long values and leading zeros", "1-0:1.8.0(000000000000123.456*kWh)(" + "9" * 40 + ")\r\n", [("1-0:1.8.0", [("000000000000123.456", "kWh"), ("9" * 40, None)])]),
         ("several values", "1-0:99.97.0(2)(0-0:96.7.19)(1*s)\r\n", [("1-0:99.97.0", [("2", None)]), ("0-0:96.7.19", [("1", "s")])] if False else None),
     ]
     okb = True
